@@ -758,3 +758,13 @@ def blen_exact(x: Int, n: Int):
     blen_upper(x)
     if blen(x) <= n - 1:
         pow2_mono(blen(x), n - 1)
+
+
+@lemma
+def shift_bound(x: Int, a: Int, b: Int):
+    """dropping the a low bits of an (a+b)-bit number leaves a b-bit number"""
+    requires(a >= 0 and b >= 0 and 0 <= x and x < pow2(a + b))
+    ensures(0 <= x // pow2(a) and x // pow2(a) < pow2(b))
+    pow2_add(a, b)
+    if x // pow2(a) >= pow2(b):
+        mul_mono(pow2(b), x // pow2(a), pow2(a))
